@@ -300,6 +300,18 @@ func checkSymbolInfoAttach(c *core.Ctx, rule string) {
 				"a SymbolInfo is changed ("+sc.Name()+") without being attached to a coin model in "+core.ShortFn(fn)+": Commit persists ticker info only through coin.symbolInfo, so for a coin loaded from disk the change is never written — after a restart the ticker has its previous owner again")
 		}
 	}
+	// … and the attachment is never dropped: a coin model whose symbolInfo pointer is cleared can no
+	// longer carry a pending (dirty) ticker-info change into Commit
+	for _, w := range c.FieldWrites(model, "symbolInfo") {
+		st, ok := w.Instr.(*ssa.Store)
+		if !ok {
+			continue
+		}
+		n++
+		k, isConst := st.Val.(*ssa.Const)
+		c.Check(!(isConst && k.Value == nil), rule, core.ShortFn(w.Fn)+"/symbolInfo-store", w.Pos(), "a coin model's symbolInfo is only ever set to a SymbolInfo object",
+			"a coin model's symbolInfo pointer is cleared in "+core.ShortFn(w.Fn)+": a ticker-info change made earlier in the same block (EditCoinOwner) is attached to this model and would no longer reach Commit — after a restart the ticker has its previous owner again")
+	}
 	c.Floor(rule, n, 1, "call sites that change a SymbolInfo")
 }
 
